@@ -112,12 +112,37 @@ Theorem C02_store_matches_update : forall w sel ms op f og si,
 Proof. exact store_matches_update_b. Qed.
 Print Assumptions C02_store_matches_update.
 
+(* end to end for a STORE by another session: an observer whose snapshot shows the mailbox as the database holds it
+   (up to \Recent) and that has nothing pending receives the flag update of the STORE and flushes (NOOP): its snapshot
+   shows the mailbox as the database holds it after the STORE — for every message list, flag list and +/-/set, every
+   snapshot and database state that meet the stated (decidable) conditions. *)
+Theorem C02_foreign_store_converges : forall w sel ms op f og si o snap0,
+  flags_total_b w sel = true -> no_shared_deleted_b w = true ->
+  same_view snap0 (fresh_view w sel) ->
+  exists st' out,
+    flush_raw true (mkS snap0 (deliver_all o sel snap0 [UFlags sel (store_parts w ms op f) og si] [])) = Some (st', out) /\
+    s_res st' = [] /\
+    same_view (s_snap st') (fresh_view (store_db w sel ms op f) sel).
+Proof. exact store_reaches_observer. Qed.
+Print Assumptions C02_foreign_store_converges.
+
 Example C02_store_hypotheses_hold :
   let h := [Cmd 0 (CSelect 0); Cmd 1 (CSelect 0); Cmd 1 (CAppend 0 [fl_deleted; 5]); Cmd 1 (CAppend 0 [fl_seen]);
             Conn (XNew 0 [7]); Cmd 1 (CStore [1]%nat FAdd [fl_deleted; 9] false); Cmd 1 CExpunge] in
   let '(w, _) := run (init_world 2 1) h in
   flags_total_b w 0 = true /\ no_shared_deleted_b w = true /\ length (fresh_view w 0) = 2%nat.
 Proof. vm_compute. repeat split. Qed.
+
+(* a repaired defect that the attempt to prove convergence for interleaved flushes exposed (replayed on the server:
+   corpus scenario readd-while-held-then-flags; fix: commit dec5b54): with the pop policy before the repair a
+   flag change of a message that was removed and put back was applied to the OLD instance by a FETCH/STORE/SEARCH and
+   lost for the new one; with the repaired policy the two flushes give what the updates say in order *)
+Theorem C02_old_policy_loses_flag_change :
+  option_map view_flags (old_two_flushes readd_queue readd_snap) = Some [(2, []); (3, [])] /\
+  option_map view_flags (new_two_flushes readd_queue readd_snap) = Some [(2, []); (3, [5])] /\
+  option_map (fun x => view_flags (fst x)) (run_responders readd_queue readd_snap) = Some [(2, []); (3, [5])].
+Proof. exact old_policy_loses_flag_change. Qed.
+Print Assumptions C02_old_policy_loses_flag_change.
 
 (* the scenario of the repaired defect, on the world model: session 1 appends a message and expunges it before
    session 0 flushed its EXISTS; after draining and NOOP session 0's view equals the fresh view (empty) *)
